@@ -504,11 +504,11 @@ def domain(e, opts, console):
             res = "f23"
 
     if k == "T":
-        return "out" if eff_overflow(e[1], opts) == "ignore" else "in"
+        return "out" if eff_overflow(e[1], opts) == "ignore" or e[1].get("end", "\n") not in ("\n", "") else "in"
     if k in ("PAD", "PANEL", "TREE", "BAR", "PBAR"):
         return "in"
     if k == "RULE":
-        return "in"
+        return "out" if opts.get("overflow") == "ignore" or e[1].get("end", "\n") not in ("\n", "") else "in"
     if k in ("STY", "CAST", "OPQ"):
         return domain(e[1], opts, console)
     if k == "CON":
@@ -532,19 +532,28 @@ def domain(e, opts, console):
         return res
     if k == "TABLE":
         o, cols = e[1], e[2]
-        for key, jk in (("title", "title_justify"), ("caption", "caption_justify")):
+        for key in ("title", "caption"):
             d = o.get(key)
-            if d is not None and eff_overflow(d, opts) == "ignore":
+            if d is not None and (eff_overflow(d, opts) == "ignore" or d.get("end", "\n") != "\n"):
                 return "out"
+        if not cols:
+            return "out"
         for co, _h, _f, _cs in cols:
             if co.get("width") is not None or co.get("min_width") is not None or co.get("no_wrap", False):
                 return "out"
             if co.get("ratio") and (o.get("expand", False) or o.get("width") is not None):
                 return "out"
+        if o.get("width") is not None:
+            box = o.get("box", "HEAVY_HEAD")
+            extra = (2 if box is not None and o.get("show_edge", True) else 0) + (len(cols) - 1 if box is not None else 0)
+            if o["width"] < extra + len(cols):
+                return "out"
         return "in"
     if k == "COLS":
         d = e[1].get("title")
-        if d is not None and eff_overflow(d, opts) == "ignore":
+        if d is not None and (eff_overflow(d, opts) == "ignore" or d.get("end", "\n") != "\n"):
+            return "out"
+        if e[1].get("width") is not None:
             return "out"
         return "in"
     raise ValueError(k)
